@@ -251,6 +251,9 @@ def runCase (d : Db) (c : Case) (out : IO.FS.Stream) : IO Unit := do
     match rwDefs[n]? with
     | some e => some e
     | none => if d.masterSp.contains n then none else d.dbEqn n
+  -- write_mass_action_eqn_x substitutes only valence masters flagged REWRITE: any other master species is terminal,
+  -- also one whose element is not in the solution (e.g. HCO3- in the equation of CN- when no carbon is present)
+  let inUse : String → Bool := fun n => c.use.contains n || (d.masterSp.contains n && !(rwDefs.contains n))
   let isMaster : String → Bool := fun n => d.masterSp.contains n
   let secDefs : String → Option (Eqn F) := fun n => if d.masterSp.contains n then none else d.dbEqn n
   let mut recs : Array (SpRec F) := #[]
